@@ -267,6 +267,15 @@ func valueDiff(a, b reflect.Value, path string) string {
 		if a.IsNil() != b.IsNil() {
 			return path + " (nil)"
 		}
+		if a.Kind() == reflect.Interface && !a.IsNil() && a.CanInterface() {
+			// an error travels as its text: whatever type it comes back as
+			if ea, ok := a.Interface().(error); ok {
+				if eb, ok := b.Interface().(error); !ok || ea.Error() != eb.Error() {
+					return path + " (error text)"
+				}
+				return ""
+			}
+		}
 		if !a.IsNil() {
 			if a.Elem().Type() != b.Elem().Type() {
 				return path + " (kind)"
